@@ -488,7 +488,10 @@ fn gen_sql_case(r: &mut Rng, n: usize) -> Value {
     }
     if shape == "extra_key" {
         let extra = json!({"k": "col", "c": *r.pick(&["id", "g"]), "desc": r.chance(1, 3), "nulls": null});
-        if r.chance(1, 4) { order.push(extra); order.push(key.clone()); } else { order.push(key.clone()); order.push(extra); }
+        // a key AFTER the distance is only decided by exact ties: l2 / dot are exact on integer-valued vectors, the two cosine functions
+        // round (mathematically equal similarities of parallel vectors may differ in the last bit), so they only appear as the LAST key
+        let exact_fn = f == "l2" || f == "dot";
+        if !exact_fn || r.chance(1, 4) { order.push(extra); order.push(key.clone()); } else { order.push(key.clone()); order.push(extra); }
     } else { order.push(key.clone()); }
     let q = json!({"sel": sel, "where": where_, "derived": derived, "order": order, "limit": limit, "offset": offset, "outer": outer});
     let style = r.below(8);
